@@ -101,6 +101,9 @@ def _case(draw, maxstages, maxdepth):
         parent = draw(st.sampled_from(streams[-3:] + streams[:1]))
         et = parent["type"]
         k = draw(st.integers(0, 13))
+        parent_is_where = any(s_["id"] == parent["id"] and s_["op"] == "Where" for s_ in stages)
+        if parent_is_where and draw(st.integers(0, 9)) < 4:
+            k = 6  # a filter directly on a filtered stream (the simplifier fuses the two)
         sid = len(streams)
         if k == 10:
             stages.append({"id": sid, "parent": parent["id"], "op": "MetaData", "d": draw(st.sampled_from(["{}", "{'m': 1}", "{'files': ['a.h'], 'n': 2}"]))})
@@ -128,7 +131,14 @@ def _case(draw, maxstages, maxdepth):
         elif k <= 7:
             sugar = draw(st.integers(0, 9))
             sp = typed.seq_paths(cx, env)
-            if sugar <= 2 and sp:
+            if parent_is_where and draw(st.integers(0, 9)) < 6:
+                # a filter directly on a filtered stream: one of the two is a disjunction (filter fusion must keep it together)
+                def cmp_():
+                    t = draw(st.sampled_from([typed.I, typed.F]))
+                    return f"{typed.gen(cx, env, t, 1)} {draw(st.sampled_from(['>', '<', '>=', '!=']))} {typed.gen(cx, env, t, 0)}"
+
+                body = f"{cmp_()} or {cmp_()}"
+            elif sugar <= 2 and sp:
                 # a filter that needs the sugar pass: a comprehension counted / measured
                 se, sty = draw(st.sampled_from(sp))
                 v = cx.fresh(env)
